@@ -94,14 +94,19 @@ def issuer_arg(q, rng):
     return b, b
 
 
-def issue(q, rng, pool, target=True):
-    """Run the real function. Returns a Built-like object."""
+def issue(q, rng, pool, target=True, live=None):
+    """Run the real function. Returns a Built-like object.
+    live = (signer object, concrete locator name): issue with this long-lived signer instead of a fresh one."""
     b = pk.Built()
     b.q = q
     b.pub = pool.pub_der(q['subj'])
     b.keyname = key_name_bytes(q, rng)
-    b.kl = pk.name_bytes(q['sg']['kl'], rng) if q['sg']['haskl'] else None
-    b.rec = pk.make_signer(q['sg'], rng, pool, b.kl, target)
+    if live is not None:
+        b.kl = live[1]
+        b.rec = pk.Recorder(live[0])
+    else:
+        b.kl = pk.name_bytes(q['sg']['kl'], rng) if q['sg']['haskl'] else None
+        b.rec = pk.make_signer(q['sg'], rng, pool, b.kl, target)
     b.exc = b.wire = b.cert_name = None
     b.issuer_bytes = {'self_sign': b'\x08\x04self', 'sign_req': b'\x08\x0ccert-request'}.get(q['fn'])
     with Clock(q['clock']) as ck:
@@ -216,10 +221,11 @@ def signature_checks(q, b, signed_ivs, sv, pool):
     return bad
 
 
-def check_issued(ctx, q, exp, b, pool, stage):
-    """exp: TLC's expectation (stage B) or None (stage C). Returns the observed layout or None."""
-    fn = FN_NAME[q['fn']]
-    rep = {'kind': 'req', 'stage': stage, 'q': q}
+def check_issued(ctx, q, exp, b, pool, stage, label=None, rep=None):
+    """exp: TLC's expectation (stage B) or None (stage C). Returns the observed layout or None.
+    label: replaces the function name in violation signatures (signer-reuse histories)."""
+    fn = label or FN_NAME[q['fn']]
+    rep = rep or {'kind': 'req', 'stage': stage, 'q': q}
     if b.exc is not None:
         c = sv2_date(q['clock'])
         if q['fn'] == 'self_sign' and isinstance(b.exc, ValueError) and (c.month, c.day) == (2, 29):
@@ -351,6 +357,207 @@ def record(ctx, q, pool, exp=None):
     return rec
 
 
+# ---------------------------------------------------------------- signer-reuse histories (NdnPacketsCertHist)
+
+SIGNER_KINDS = ['ecdsa', 'rsa', 'ed25519', 'hmac', 'tpm-ecdsa', 'tpm-rsa']
+HIST_FNS = ['self_sign', 'sign_req', 'derive']
+
+
+def loc_shapes(rng, nloc, fixed):
+    """Locator identifier -> name shape. Different shapes, so that a wrong locator also changes the layout."""
+    if fixed:
+        base = [[{'t': 8, 'l': 2}, {'t': 8, 'l': 3}, {'t': 8, 'l': 8}],                                   # the key name
+                [{'t': 8, 'l': 2}, {'t': 8, 'l': 3}, {'t': 8, 'l': 8}, {'t': 8, 'l': 4}, {'t': 54, 'l': 8}],  # its certificate
+                [{'t': 8, 'l': 5}, {'t': 8, 'l': 1}, {'t': 8, 'l': 3}, {'t': 8, 'l': 8}]]                   # another key
+        return {i + 1: base[i] for i in range(nloc)}
+    out = {}
+    for i in range(1, nloc + 1):
+        out[i] = [{'t': 8, 'l': i}] + pk.rand_name(rng, 3) + [{'t': 8, 'l': 3}, {'t': 8, 'l': 8}]
+    return out
+
+
+class LiveSigner:
+    """One real signer object of the given class, kept for a whole history."""
+
+    def __init__(self, kind, loc_name, pool, scratch):
+        from ndn.security import Sha256WithEcdsaSigner, Sha256WithRsaSigner, HmacSha256Signer, Ed25519Signer
+        self.kind = kind
+        base = kind.split('-')[-1]
+        self.model = {'ecdsa': ('ecdsa', 72), 'rsa': ('rsa', 256), 'ed25519': ('ed25519', 64), 'hmac': ('hmac', 32)}[base]
+        if kind == 'ecdsa':
+            self.obj = Sha256WithEcdsaSigner(loc_name, pool.ec[72][0])
+        elif kind == 'rsa':
+            self.obj = Sha256WithRsaSigner(loc_name, pool.rsa[0])
+        elif kind == 'ed25519':
+            self.obj = Ed25519Signer(loc_name, pool.ed[0])
+        elif kind == 'hmac':
+            self.obj = HmacSha256Signer(loc_name, pool.hmac)
+        else:
+            # signer handed out by a TPM back-end (what the keychain returns)
+            from ndn.security.tpm import TpmFile
+            from ndn.encoding import Name
+            d = os.path.join(scratch, 'tpm')
+            os.makedirs(d, exist_ok=True)
+            tpm = TpmFile(d)
+            kn = Name.from_str('/verif/KEY/' + base)
+            tpm.save_key(kn, pool.ec[72][0] if base == 'ecdsa' else pool.rsa[0])
+            self.obj = tpm.get_signer(kn, loc_name)
+
+    def set_locator(self, name):
+        self.obj.key_locator_name = name
+
+    def sg(self, shape):
+        kind, r = self.model
+        return {'kind': kind, 'r': r, 'a': r if kind != 'ecdsa' else -1, 'st': True, 'haskl': True, 'kl': shape,
+                'nonce': 0, 'time': 0, 'seq': 0}
+
+
+def run_history(ctx, kind, init, steps, shapes, pool, stage):
+    """Drive ONE real signer along steps = [('SetLocator', l) | ('SignData',) | ('Issue', fn)].
+    After every issuance the whole certificate is checked against the locator configured at that moment.
+    Returns (history record for NdnPacketsCertHistTrace, certificate records for NdnPacketsCertTrace)."""
+    from ndn.encoding import make_data, MetaInfo
+    names = {i: pk.name_bytes(sh, ctx.rng) for i, sh in shapes.items()}
+    live = LiveSigner(kind, names[init], pool, tlc.BUILD)
+    cur = init
+    ev, certs = [], []
+    hist_rep = {'kind': 'history', 'signer': kind, 'init': init, 'steps': [list(x) for x in steps],
+                'shapes': {str(k): v for k, v in shapes.items()}}
+    for stp in steps:
+        if stp[0] == 'SetLocator':
+            cur = stp[1]
+            live.set_locator(names[cur])
+            ev.append({'a': 'SetLocator', 'l': cur})
+        elif stp[0] == 'SignData':
+            make_data([b'\x08\x01d'], MetaInfo(), b'x', signer=live.obj)
+            ev.append({'a': 'SignData'})
+        else:
+            fn = stp[1]
+            q = {'fn': fn, 'subj': 'ec256', 'keyname': [{'t': 8, 'l': 3}, {'t': 8, 'l': 3}, {'t': 8, 'l': 8}],
+                 'publen': len(pool.pub_der('ec256')), 'issuer': {'t': 8, 'l': 3}, 'sg': live.sg(shapes[cur]),
+                 'clock': {'d': 20000 + len(ev), 's': 3600, 'ms': 5}, 'start': {'d': 19000, 's': 0}, 'dur': 86400, 'tz': NAIVE}
+            b = issue(q, ctx.rng, pool, target=False, live=(live.obj, names[cur]))
+            if b.rec.actual is not None and q['sg']['kind'] == 'ecdsa':
+                q['sg']['a'] = b.rec.actual
+            if q['sg']['a'] < 0:
+                q['sg']['a'] = q['sg']['r']
+            lay = check_issued(ctx, q, None, b, pool, stage, label='%s@reused-%s-signer' % (FN_NAME[fn], kind), rep=hist_rep)
+            seen = 0
+            if lay:
+                kls = find(lay, 28, 2)
+                if kls:
+                    body = val(b.wire, kls[0])
+                    for i, nm in names.items():
+                        if body == st.write_tlv([(7, b''.join(nm))]):
+                            seen = i
+            ev.append({'a': 'Issue', 'fn': fn, 'kl': seen})
+            rec = {'q': q, 'refused': b.exc is not None, 'lay': pk.lay_json(lay or []), 'nb': [], 'na': [], 'signed': []}
+            if lay and len(find(lay, 254)) == 1 and len(find(lay, 255)) == 1:
+                rec['nb'] = list(val(b.wire, find(lay, 254)[0]))
+                rec['na'] = list(val(b.wire, find(lay, 255)[0]))
+                rec['signed'] = [{'lo': lay[0][3], 'hi': lay[-1][2]}]
+            certs.append(rec)
+    return {'signer': kind, 'init': init, 'ev': ev, 'rep': hist_rep}, certs
+
+
+def judge_histories(ctx, hists, certs, stage):
+    recs = [{'init': h['init'], 'ev': h['ev']} for h in hists]
+    rej = pk.judge(ctx, 'NdnPacketsCertHistTrace', 'NdnPacketsCertHistTrace.cfg', recs, 'c16-hist-' + stage)
+    for i, at in rej:
+        h = hists[i]
+        k = int(str(at).strip() or 0)
+        e = h['ev'][k - 1] if 0 < k <= len(h['ev']) else {'a': 'end'}
+        ctx.violation('C16/signer-reuse/%s/%s/key-locator-not-the-configured-one' % (h['signer'], e.get('fn', e['a'])),
+                      'history on one %s signer rejected by NdnPacketsCertHistTrace at event %s %s: the certificate names locator #%s; '
+                      'events %s' % (h['signer'], k, e, e.get('kl'), h['ev']), dict(h['rep'], rejected_at=k))
+    report_rejected(ctx, certs, pk.judge(ctx, 'NdnPacketsCertTrace', 'NdnPacketsCertTrace.cfg', certs, 'c16-histcerts-' + stage),
+                    stage + '-history')
+    return rej
+
+
+def hist_stage_a(ctx):
+    inv = dict(invariants=['TypeOK'], properties=['LocatorAtIssue', 'IssuedStable'])
+    n, m = ctx.pick((3, 4), (3, 6))
+    cp = os.path.join(tlc.BUILD, 'NdnPacketsCertHist_a.cfg')
+    tlc.write_cfg(cp, constants={'NLoc': n, 'MaxSteps': m, 'DevCache': 'FALSE'}, **inv)
+    r = tlc.run('NdnPacketsCertHist', cp, workers=2, heavy=False)
+    ctx.add_tlc('NdnPacketsCertHist NLoc=%d MaxSteps=%d' % (n, m), r)
+    if r.violated:
+        ctx.violation('C16/spec/NdnPacketsCertHist/%s' % r.violated, 'TLC: %s violated' % r.violated, {'trace': r.errtrace[:3000]})
+    # the property must be able to fail: the "build the KeyLocator once" deviation is refuted by TLC
+    tlc.write_cfg(cp, constants={'NLoc': 2, 'MaxSteps': 3, 'DevCache': 'TRUE'}, **inv)
+    if tlc.run('NdnPacketsCertHist', cp, workers=1, heavy=False).violated != 'LocatorAtIssue':
+        raise MachineryError('LocatorAtIssue does not refute the cached-locator deviation')
+    for w in ('W_ChangedBetween', 'W_ChangedBeforeFirstUse'):
+        tlc.write_cfg(cp, constants={'NLoc': 2, 'MaxSteps': 3, 'DevCache': 'FALSE'}, invariants=[w])
+        if tlc.run('NdnPacketsCertHist', cp, workers=1, heavy=False).violated != w:
+            raise MachineryError('witness %s not reachable' % w)
+
+
+def hist_stage_b(ctx, pool):
+    from harness import graph
+    n, m = ctx.pick((2, 3), (2, 4))
+    cp = os.path.join(tlc.BUILD, 'NdnPacketsCertHist_g.cfg')
+    tlc.write_cfg(cp, constants={'NLoc': n, 'MaxSteps': m, 'DevCache': 'FALSE'}, invariants=['TypeOK'])
+    g = graph.dump('NdnPacketsCertHist', cp, workers=2)
+    ctx.add_tlc('NdnPacketsCertHist graph NLoc=%d MaxSteps=%d (%d edges)' % (n, m, g.n_edges), g.tlc)
+    paths = graph.edge_cover_paths(g, max_len=m)
+    shapes = loc_shapes(ctx.rng, n, fixed=True)
+    hists, certs = [], []
+    for k, (init, path) in enumerate(paths):
+        steps = [(a,) + tuple(args) for a, args, _ in path]
+        if not any(s_[0] == 'Issue' for s_ in steps):
+            continue
+        # every path on every signer class in thorough; round-robin over the classes in quick
+        kinds = SIGNER_KINDS if not ctx.quick else [SIGNER_KINDS[k % len(SIGNER_KINDS)]]
+        for kind in kinds:
+            h, cs = run_history(ctx, kind, g.state[init]['loc'], steps, shapes, pool, 'B')
+            # the certificates' locators must be the ones in TLC's state after the path
+            want = [c['kl'] for c in g.state[path[-1][2]]['issued']]
+            got = [e['kl'] for e in h['ev'] if e['a'] == 'Issue']
+            if got != want:
+                ctx.violation('C16/signer-reuse/%s/replay/key-locator-not-the-configured-one' % kind,
+                              'one %s signer driven along %s: certificates name locators %s, TLC state says %s' % (kind, steps, got, want),
+                              h['rep'])
+            hists.append(h)
+            certs += cs
+            ctx.traces += 1
+            ctx.evaluations += len(cs)
+            if any(s_[0] == 'SetLocator' for s_ in steps):
+                ctx.nt(['B-hist', kind, steps])
+    ctx.sample({'kind': 'B-history', 'signer': hists[0]['signer'], 'events': hists[0]['ev']})
+    rej = judge_histories(ctx, hists, certs, 'B')
+    ctx.note('B: %d cover paths of the signer-history graph (%d states, %d edges) replayed on real signer objects: %d histories, '
+             '%d certificates, %d rejected' % (len(paths), len(g.state), g.n_edges, len(hists), len(certs), len(rej)))
+
+
+def hist_stage_c(ctx, pool):
+    hists, certs = [], []
+    for k in range(ctx.pick(36, 900)):
+        nloc = ctx.rng.randint(2, 6)
+        shapes = loc_shapes(ctx.rng, nloc, fixed=False)
+        cur = init = ctx.rng.randint(1, nloc)
+        steps = []
+        for _ in range(ctx.rng.randint(4, ctx.pick(8, 16))):
+            x = ctx.rng.random()
+            if x < 0.4:
+                cur = ctx.rng.choice([i for i in range(1, nloc + 1) if i != cur])
+                steps.append(('SetLocator', cur))
+            elif x < 0.5:
+                steps.append(('SignData',))
+            else:
+                steps.append(('Issue', ctx.rng.choice(HIST_FNS)))
+        kind = SIGNER_KINDS[k % len(SIGNER_KINDS)]
+        h, cs = run_history(ctx, kind, init, steps, shapes, pool, 'C')
+        hists.append(h)
+        certs += cs
+        ctx.traces += 1
+        ctx.evaluations += len(cs)
+        ctx.nt(['C-hist', kind, steps])
+    rej = judge_histories(ctx, hists, certs, 'C')
+    ctx.note('C: %d random signer histories (%d certificates) judged by TLC, %d rejected' % (len(hists), len(certs), len(rej)))
+
+
 # ---------------------------------------------------------------- datetime cross-validation
 
 def datetime_records(rng, n):
@@ -414,6 +621,7 @@ def run(ctx):
         ctx.add_tlc('NdnPacketsCertMC Scale=%d' % scale, r)
         if r.violated:
             ctx.violation('C16/spec/%s' % r.violated, 'TLC: %s violated in NdnPacketsCertMC' % r.violated, {'trace': r.errtrace})
+        hist_stage_a(ctx)
     if 'B' in ctx.stages:
         out = os.path.join(tlc.BUILD, 'c16-gen-%s.ndjson' % ctx.tier)
         cfgp = os.path.join(tlc.BUILD, 'NdnPacketsCertGen_%s.cfg' % ctx.tier)
@@ -444,6 +652,7 @@ def run(ctx):
         # the enumerated requests' observations also go through the TLC judge (the validity of self-issued
         # certificates is a predicate over the text found in the wire, evaluated by CertTime!ParseInst)
         report_rejected(ctx, brecs, pk.judge(ctx, 'NdnPacketsCertTrace', 'NdnPacketsCertTrace.cfg', brecs, 'c16-btraces'), 'B')
+        hist_stage_b(ctx, pool)
     if 'C' in ctx.stages:
         n = ctx.pick(1200, 12000)
         recs = [record(ctx, rand_req(ctx.rng, pool), pool) for _ in range(n)]
@@ -456,6 +665,7 @@ def run(ctx):
         ctx.evaluations += len(recs)
         ctx.note('C: %d recorded issuances judged by TLC, %d rejected' % (len(recs), len(rejected)))
         report_rejected(ctx, recs, rejected, 'C')
+        hist_stage_c(ctx, pool)
 
 
 def report_rejected(ctx, recs, rejected, stage):
@@ -492,6 +702,16 @@ def replay(ctx, path):
     with open(path) as f:
         obj = json.load(f)
     pool = pk.Pool(ctx.rng)
+    if obj.get('kind') == 'history':
+        shapes = {int(k): v for k, v in obj['shapes'].items()}
+        steps = [tuple(x) for x in obj['steps']]
+        print('one %s signer, initial locator #%d, steps %s' % (obj['signer'], obj['init'], steps))
+        h, certs = run_history(ctx, obj['signer'], obj['init'], steps, shapes, pool, 'replay')
+        print('events (kl = locator found in the certificate):', h['ev'])
+        rej = judge_histories(ctx, [h], certs, 'replay')
+        for v in ctx.violations:
+            print('reproduced:', v['sig'], '-', v['what'][:300])
+        return 1 if ctx.violations else 0
     if obj.get('kind') == 'trace':
         rej = pk.judge(ctx, 'NdnPacketsCertTrace', 'NdnPacketsCertTrace.cfg', [obj['rec']], 'c16-replay')
         print('recorded issuance:', 'rejected %s' % rej if rej else 'accepted')
